@@ -18,6 +18,7 @@ import (
 	"sort"
 	"strconv"
 	"strings"
+	"sync"
 	"time"
 
 	"rgverif/internal/cluster"
@@ -494,6 +495,7 @@ func main() {
 	// A replica that was stopped for a while receives what it missed in one piece, and a restarted replica re-applies
 	// its whole log: both must end with the standalone server's keyspace (the last concurrent program is still loaded).
 	replays, lagSkipped := 0, 0
+	slowCmds, slowProbes, slowSkipped := 0, 0, 0
 	if len(bySig) == 0 {
 		wantDump, err := dumpOf(ca)
 		if err != nil {
@@ -583,6 +585,134 @@ func main() {
 		}
 		lag("3-node cluster", c3, 3, false)
 		lag("3-node cluster", c3, 2, true)
+	}
+	// A commit that is merely slow: both followers are frozen for 6.5 s while non-idempotent commands wait on the
+	// leader (one connection each), then continue. Each command was submitted once, so it acts once: replies and the
+	// values on every replica are those of the standalone server.
+	if len(bySig) == 0 {
+		func() {
+			if !c3.WaitAllWritable(120 * time.Second) {
+				slowSkipped++
+				return
+			}
+			lead := c3.Leader()
+			if lead == 0 {
+				slowSkipped++
+				return
+			}
+			tag := fmt.Sprintf("slow:%d:", o.Seed)
+			prep := [][]string{{"RPUSH", tag + "q", "a b", "c", "", "d"}, {"SET", tag + "n", "10"}, {"HSET", tag + "h", "f", "5"}, {"SADD", tag + "s", "m1", "m 2", "m3"}}
+			pending := [][]string{{"INCR", tag + "ctr"}, {"APPEND", tag + "str", "ab cd"}, {"RPUSH", tag + "list", "x y", ""}, {"LPOP", tag + "q"},
+				{"HINCRBY", tag + "h", "f", "3"}, {"DECRBY", tag + "n", "4"}, {"SPOP", tag + "s", "3"}, {"XADD", tag + "st", "7-1", "f", "v w"}, {"LPUSH", tag + "q", "z"}, {"INCRBYFLOAT", tag + "fl", "1.5"}}
+			probes := [][]string{{"GET", tag + "ctr"}, {"GET", tag + "str"}, {"LRANGE", tag + "list", "0", "-1"}, {"LRANGE", tag + "q", "0", "-1"}, {"HGET", tag + "h", "f"},
+				{"GET", tag + "n"}, {"SCARD", tag + "s"}, {"XLEN", tag + "st"}, {"GET", tag + "fl"}}
+			lc, err := respc.Dial(c3.Nodes[lead-1].Addr(), 30*time.Second)
+			if err != nil {
+				slowSkipped++
+				return
+			}
+			defer lc.Close()
+			lc.Timeout = 8 * time.Second
+			for _, cmd := range prep {
+				if _, err := lc.Do(cmd...); err != nil {
+					slowSkipped++
+					return
+				}
+				if _, err := ca.Do(cmd...); err != nil {
+					fail("standalone connection failed: " + err.Error())
+				}
+			}
+			type res struct {
+				v   respc.Value
+				err error
+			}
+			out := make([]res, len(pending))
+			conns := make([]*respc.Client, len(pending))
+			for i := range pending {
+				c, err := respc.Dial(c3.Nodes[lead-1].Addr(), 30*time.Second)
+				if err != nil {
+					slowSkipped++
+					return
+				}
+				c.Timeout = 40 * time.Second
+				conns[i] = c
+				defer c.Close()
+			}
+			for _, nd := range c3.Nodes {
+				if nd.ID != lead {
+					c3.Pause(nd.ID)
+				}
+			}
+			var wg sync.WaitGroup
+			for i := range pending {
+				wg.Add(1)
+				go func(i int) {
+					defer wg.Done()
+					out[i].v, out[i].err = conns[i].Do(pending[i]...)
+				}(i)
+			}
+			time.Sleep(6500 * time.Millisecond)
+			for _, nd := range c3.Nodes {
+				if nd.ID != lead {
+					c3.Resume(nd.ID)
+				}
+			}
+			wg.Wait()
+			var trace [][]string
+			for _, cmd := range append(append([][]string{}, prep...), pending...) {
+				trace = append(trace, cmd)
+			}
+			open := false
+			for i := range pending {
+				if out[i].err != nil {
+					open = true // not answered (a leader change after all): whether it took effect is unknown
+				}
+			}
+			if open {
+				slowSkipped++
+				return
+			}
+			for i, cmd := range pending {
+				va, err := ca.Do(cmd...)
+				if err != nil {
+					fail("standalone connection failed: " + err.Error())
+				}
+				nm := strings.ToUpper(cmd[0])
+				if nm == "SPOP" { // all three members: order is unspecified
+					if len(va.Arr) != len(out[i].v.Arr) {
+						report(witness{Kind: "reply", Detail: fmt.Sprintf("3-node cluster, commit delayed by 6.5 s: %v\n standalone: %s\n cluster:    %s", cmd, va.String(), out[i].v.String()), Program: trace, Sig: "reply|slow-commit|" + nm})
+					}
+					continue
+				}
+				if normalise(nm, va) != normalise(nm, out[i].v) {
+					report(witness{Kind: "reply", Detail: fmt.Sprintf("3-node cluster, commit delayed by 6.5 s (both followers frozen, then continued): %v\n standalone: %s\n cluster:    %s", cmd, va.String(), out[i].v.String()), Program: trace, Sig: "reply|slow-commit|" + nm})
+				}
+				slowCmds++
+			}
+			if !c3.WaitAllWritable(120 * time.Second) {
+				return
+			}
+			for _, nd := range c3.Nodes {
+				conn, err := respc.Dial(nd.Addr(), 30*time.Second)
+				if err != nil {
+					continue
+				}
+				if _, err := conn.Do("SET", "__ready:barrier", "slow"); err == nil {
+					for _, q := range probes {
+						va, erra := ca.Do(q...)
+						vc, errc := conn.Do(q...)
+						if erra != nil || errc != nil {
+							continue
+						}
+						slowProbes++
+						if va.String() != vc.String() {
+							report(witness{Kind: "state", Detail: fmt.Sprintf("3-node cluster node %d after a commit delayed by 6.5 s: %v\n standalone: %s\n cluster:    %s", nd.ID, q, va.String(), vc.String()), Program: trace, Sig: "state|slow-commit|" + strings.ToUpper(q[0])})
+						}
+					}
+				}
+				conn.Close()
+			}
+		}()
 	}
 	// Snapshots: a second three-node cluster takes a snapshot every 25 applied entries and keeps 3 entries behind it.
 	// Programs of every value type accumulate state (no reset in between); one replica is killed, misses more than the
@@ -801,6 +931,9 @@ func main() {
 			"snapshot_phase_replica_dumps_compared":     snapCompared,
 			"snapshot_phase_skipped_open_command":       snapSkipped,
 			"lagging_or_restarted_skipped_open_command": lagSkipped,
+			"slow_commit_commands_compared":             slowCmds,
+			"slow_commit_replica_values_compared":       slowProbes,
+			"slow_commit_skipped_open_command":          slowSkipped,
 			"known_finding_hits":                        knownHits,
 			"violation_samples":                         vs,
 		},
